@@ -33,7 +33,7 @@ from vp.harness import pcode_gen as G
 # imported here (not lazily) so that the parent process pays for the heavy imports (pint, pydantic/fastapi through sentry_sdk)
 # once and the forked shard workers inherit them
 from vp.harness import engine_h as H
-from vp.harness.sched import Baton, BatonLock
+from vp.harness.sched import Baton, BatonLock, SchedulerHang, patch_lock_factories, run_bounded
 import openpectus
 import openpectus.protocol.aggregator_messages as AM
 import openpectus.protocol.models as Mdl
@@ -60,6 +60,9 @@ class _NoStopwatch(types.ModuleType):
 
 
 _events_mod.time = _uod_mod.time = _NoStopwatch()
+# every lock the code under test creates from now on (engine._lock, and any lock a change adds to a collaborator) is a
+# baton lock: a real lock held by the parked thread would block the running thread for good
+patch_lock_factories("openpectus")
 
 ID = "C40"
 LEVEL = "exploration"
@@ -110,6 +113,8 @@ INJECT = ["Mark: j1", "Quick: j2", "Slow: 2.901", "Slow: 3.902", "Set1: 5.903", 
           "Watch: In1 > 1 L/h\n    Mark: j9", "Stop", "Open1", "Bad", "Foo: 1", "Mark j10 no colon :::"]
 EDIT_TEXT = ["Mark: e%d", "Quick: e%d", "Slow: 2.%03d", "Wait: 0.2s", "Set2: 4.%03d", "Pause: 0.2s", "# e%d", "", "Info: e%d",
              "0.3 Mark: e%d", "OvA: 2.%03d"]
+CASE_LIMIT_S = 300       # real-time bound of one replayed case (serial orders + interleaved step); exceeded = SchedulerHang
+MAX_HANGS = 3            # a shard gives up after this many schedules / scenarios that could not be realised
 MAX_EXTRA = 12      # a cancel/force request for an eligible item may extend the prefix by up to this many ticks
 UUID_RE = re.compile(r"[0-9a-f]{8}-[0-9a-f]{4}-[0-9a-f]{4}-[0-9a-f]{4}-[0-9a-f]{12}")
 
@@ -182,6 +187,17 @@ def scenarios(draw, cfg):
             if pre > 1:
                 pre_ops.append([pre - 2, {"k": "control", "name": draw(st.sampled_from(["Pause", "Hold"]))}])
             reqs.insert(0, {"k": "control", "name": draw(st.sampled_from(["Unpause", "Unhold", "Stop", "Restart"]))})
+    # family "request changes several outputs on the request thread" (an eighth of the scenarios): the method drives two
+    # output registers away from their safe values and pauses (outputs safe); the request cancels the running Pause from the
+    # run log, which restores all pre-pause outputs at once on the request thread.  A written hardware image that mixes safe
+    # and restored values belongs to no serial order (the images written per tick are part of the effect log)
+    if not flip and draw(st.integers(0, 7)) == 0:
+        head = [{"k": "set", "t": None, "reg": 1, "v": draw(st.integers(2, 9))}, {"k": "set", "t": None, "reg": 2, "v": draw(st.integers(2, 9))},
+                {"k": "pause", "t": None, "d": draw(st.sampled_from([1.0, 2.0, 3.0]))}]
+        tree = dict(tree, body=head + tree["body"])
+        pre = draw(st.integers(9, 17))
+        pre_ops = []
+        reqs = [{"k": "cancel", "pick": 0, "pref": "eligible"}] + reqs[1:]
     scen = {"tree": tree, "traj": traj, "pre": pre, "pre_ops": pre_ops, "reqs": reqs, "post": post}
     # numbers from which the schedules are derived once the step has been profiled
     picks = draw(st.lists(st.tuples(st.integers(0, 4), st.integers(0, 99), st.integers(0, 9999), st.integers(0, 9999),
@@ -279,6 +295,7 @@ class Exec:
         self.lines = G.render(scen["tree"])
         self.h = H.EngineHarness(G.as_method_lines(self.lines))
         self.h.events = _EvList(self.h.events)
+        patch_lock_factories("openpectus")     # modules imported since (cheap when nothing was imported)
         self.lock = BatonLock()
         self.h.engine._lock = self.lock
         self.disp = _Dispatcher()
@@ -557,6 +574,8 @@ class Reference:
         self.none = Exec(scen).prefix().step_serial(["T"]).finish()
         self.none["resp"] = None
         self.state_changes_in_tick = self.none["after_step"]["state"] != self.state_at_step
+        outs = lambda o: [v for n, v in o["after_step"]["tags"] if n in ("Out1", "Out2", "Out3")]    # noqa: E731
+        self.outputs_changed_by_request = sum(1 for a, b in zip(outs(self.serial[0][1]), outs(self.none)) if a != b)
         # is a request accepted in one serial order and rejected in another?
         self.validity_flips = len({json.dumps([r[0] if r else None for r in o["resp"]]) for _, o in self.serial}) > 1
         # profile of the tick: schedule [] under the scheduler must be the serial order tick-then-requests
@@ -795,7 +814,7 @@ def _valid(case) -> bool:
 def check_case(case):
     if not isinstance(case, dict) or "scen" not in case or "sw" not in case or not _valid(case):
         return []
-    return judge(case["scen"], case["sw"])[0]
+    return run_bounded(lambda: judge(case["scen"], case["sw"])[0], CASE_LIMIT_S, "C40 case")
 
 
 def shrink_hints(case):
@@ -879,8 +898,9 @@ def _classes(info):
 
 def run_shard(col, cfg):
     counter = [0]
+    hangs: list = []
 
-    def body(drawn):
+    def scenario(drawn):
         scen, picks = drawn
         ref = reference(scen)
         counter[0] += 1
@@ -896,6 +916,8 @@ def run_shard(col, cfg):
             col.count("scenario-run-state-changes-in-the-raced-tick")
         if ref.validity_flips:
             col.count("scenario-acceptance-of-a-request-depends-on-the-order")
+        if ref.outputs_changed_by_request:
+            col.count("scenario-request-changes-%d-outputs-at-once" % min(ref.outputs_changed_by_request, 2))
         scheds = _schedules(ref, picks)
         if cfg.get("exhaustive_every") and counter[0] % cfg["exhaustive_every"] == 0:
             if ref.n_t <= cfg["exhaustive_max_events"]:
@@ -919,4 +941,23 @@ def run_shard(col, cfg):
                        sample={"method": G.text_of(G.render(scen["tree"])), "pre_ticks": scen["pre"], "requests": _req_text(scen),
                                "switches": sw, "first_switch_phase": info.get("first_phase"), "explained_by": info.get("matches")})
 
+    def body(drawn):
+        if len(hangs) >= MAX_HANGS:
+            return
+        try:
+            # watchdog: the whole scenario runs on a daemon thread that is abandoned after a generous real-time limit
+            run_bounded(lambda: scenario(drawn), cfg.get("scenario_limit_s", 900), "C40 scenario")
+        except SchedulerHang as ex:
+            # a step (or the scenario) did not end: this schedule could not be realised.  Never a verdict, never a hang of
+            # the check: counted, the scenario is dropped, and the shard ends as a harness error below unless it has
+            # established violations
+            hangs.append(str(ex))
+            col.count("harness:schedule-could-not-be-realised")
+            _ref_cache.clear()
+
     hyp_run(scenarios(cfg), body, max(1, cfg["scenarios"] // col.nshards), shard_seed(col.seed, col.shard), col)
+    if hangs:
+        col.extra["unrealised_schedules"] = len(hangs)
+        if not col.violations:
+            raise RuntimeError("C40 harness: %d scenario(s) could not be realised (a thread neither ended nor blocked on a "
+                               "modelled lock) and no violation was established in this shard; first: %s" % (len(hangs), hangs[0]))
